@@ -633,6 +633,15 @@ def run(ctx, replay=None):
         "from the public API; base call + one-parameter variants incl. weights / where / out / lock / meta / name / token, literal variants "
         "-0.0/0.0, True/1/1.0/np.float32(1), NaN payloads, tuple vs list, bit generators; both build orders, computed separately and in one "
         "merged dask.compute); "
+        "OPERAND ORDERS (harness/props_ext/c06_order.py): ~120 binary / n-ary call families (operators, every binary ufunc, where / clip / "
+        "choose / select, stack / concatenate / block, map_blocks / blockwise / apply_gufunc, dot / outer / tensordot / einsum, chains) with the "
+        "operands swapped / rotated, operand kinds dask|ndarray|scalar, on 16 data recipes for which commutative operations are NOT symmetric "
+        "(unicode / object strings, tuples, signed zeros, NaN payloads, mixed dtypes, masked arrays, matrices); one name => NumPy-identical "
+        "arrays, values separately / merged / stacked equal the value alone; "
+        "CONFIGURATIONS (harness/props_ext/c06_config.py): ~100 calls whose planning reads the configuration (chunks='auto' / byte specs in "
+        "sources, creation and every spelling of rechunk, reshape, operands to unify, tree reductions, overlap, indexing) x every option read "
+        "lazily (enumerated from the source; keys actually read are recorded per call) x every value of its domain: alone, with the earlier "
+        "builds alive, after gc; all observations must form a function name -> (chunks, dtype), values equal the value alone; "
         "a case is distinct by (registry pair of classes) / (near-duplicate parameter kind) / (perturbed class, operand) / (family, parameter)"
     )
     ctx.assumptions = [
@@ -650,10 +659,26 @@ def run(ctx, replay=None):
 
     NPROG = ctx.scale(50, 500)
     reg = Registry(ctx, value_budget=ctx.scale(120, 1500))
+    phases = ctx.notes.setdefault("phase_seconds", {})
+
+    def timed(label, t):
+        phases[label] = round(ctx.elapsed() - t, 1)
+
+    # the CONFIGURATION dimension (harness/props_ext/c06_config.py): the same call under every value of every lazily
+    # read option, alone / with the first alive / after gc.  Runs BEFORE the registry hook is installed: the hook keeps
+    # every expression alive, and "after garbage collection" must be real here.
+    from harness.props_ext import c06_config, c06_order
+
+    t = ctx.elapsed()
+    with dask.config.set(scheduler="sync"):
+        c06_config.run(ctx, reg)
+    timed("config", t)
     reg.install()
     try:
         with dask.config.set(scheduler="sync"):
+            t = ctx.elapsed()
             history(ctx, reg, NPROG)
+            timed("history", t)
             random_family(ctx, reg)
             for c in reg.drain("random-family"):
                 report_conflict(ctx, c, None)
@@ -661,8 +686,17 @@ def run(ctx, replay=None):
             # tuple vs list, bit generators, ...), both build orders, separate and merged computes
             from harness.props_ext import c06_pairs
 
+            t = ctx.elapsed()
             c06_pairs.run(ctx, reg)
+            timed("pairs", t)
+            t = ctx.elapsed()
             perturbation(ctx, reg, targeted=None)
+            timed("perturbation", t)
+            # the OPERAND-ORDER dimension (harness/props_ext/c06_order.py): every binary / n-ary call family with its operands
+            # in every order, on data for which "commutative" operations are not symmetric
+            t = ctx.elapsed()
+            c06_order.run(ctx, reg)
+            timed("order", t)
             if ctx.audit.get("broken"):
                 targeted(ctx, reg)
     finally:
@@ -1352,10 +1386,20 @@ def run_replay(ctx, rp):
 
     case = rp.get("case", rp)
     reg = Registry(ctx, value_budget=50)
+    if case.get("config_stream"):  # harness/props_ext/c06_config.py (runs without the registry hook: real garbage collection)
+        from harness.props_ext import c06_config
+
+        with dask.config.set(scheduler="sync"):
+            c06_config.replay(ctx, reg, case)
+        return
     reg.install()
     try:
         with dask.config.set(scheduler="sync"):
-            if case.get("pairs"):  # harness/props_ext/c06_pairs.py
+            if case.get("order_stream"):  # harness/props_ext/c06_order.py
+                from harness.props_ext import c06_order
+
+                c06_order.replay(ctx, reg, case)
+            elif case.get("pairs"):  # harness/props_ext/c06_pairs.py
                 from harness.props_ext import c06_pairs
 
                 c06_pairs.replay(ctx, reg, case)
